@@ -28,9 +28,9 @@ def render(rnd, atoms, lang_ml=False):
     haspar = False
     xpending = False    # an \xspace waits for its next token
     for k in atoms:
-        if xpending and k not in ('ws', 'skip'):
+        if xpending and k not in ('ws', 'skip', 'com'):
             # \xspace: a blank unless the next token is in its exception list (of the atoms only \footnotemark);
-            # a skipped region is removed before expansion, so it is transparent
+            # a skipped region is removed before expansion and a comment is not a token of the text: transparent
             xpending = False
             if k == 'vanish2':
                 s += '\\footnotemark[1]'
